@@ -2,6 +2,8 @@
 
 package sniproxy
 
+import "sync/atomic"
+
 // This file is only built with the "verif" tag. It lets an external
 // verification harness observe, and hold, a goroutine at a named point so
 // that a particular interleaving can be forced. Without the tag verifPoint
@@ -18,15 +20,24 @@ func verifPoint(point, name string, ep *endpointClient) {
 	}
 }
 
-// VerifTrHook, when set, is called at the schedule points inside a
-// transport (serve taking a call, after the send, after recording it as
-// pending, before servicing a fetch; the reader before and after its fetch
-// hand-off and before done()) with the point's name and an opaque identity
-// of the transport (compare with VerifClient.Transport). It may block.
-var VerifTrHook func(point string, tr interface{})
+// VerifSetTrHook installs (or, with nil, removes) the function called at the
+// schedule points inside a transport (serve taking a call, after the send,
+// after recording it as pending, before servicing a fetch; the reader before
+// and after its fetch hand-off and before done()) with the point's name and
+// an opaque identity of the transport (compare with VerifClient.Transport).
+// The function may block. Safe to call while transports are running.
+func VerifSetTrHook(f func(point string, tr interface{})) {
+	if f == nil {
+		verifTrHook.Store(nil)
+		return
+	}
+	verifTrHook.Store(&f)
+}
+
+var verifTrHook atomic.Pointer[func(point string, tr interface{})]
 
 func verifPointTr(point string, tr *transport) {
-	if h := VerifTrHook; h != nil {
-		h(point, tr)
+	if h := verifTrHook.Load(); h != nil {
+		(*h)(point, tr)
 	}
 }
